@@ -1,6 +1,7 @@
 package spine
 
 import (
+	"slices"
 	"sync"
 	"time"
 
@@ -158,11 +159,23 @@ func (r *EntityLocal) AddUseCaseSupport(
 		Entity: r.address.Entity,
 	}
 
+	ownUseCaseLists(data)
 	data.AddUseCaseSupport(address, actor, useCaseName, useCaseVersion, useCaseDocumemtSubRevision, useCaseAvailable, scenarios)
 
 	verifPoint("UseCase.beforeStore")
 
 	nodeMgmt.SetData(model.FunctionTypeNodeManagementUseCaseData, data)
+}
+
+// The copy of the use case data shares its lists with the stored data and with every
+// copy handed out earlier: give it lists of its own before it is modified
+func ownUseCaseLists(data *model.NodeManagementUseCaseDataType) {
+	infos := make([]model.UseCaseInformationDataType, len(data.UseCaseInformation))
+	copy(infos, data.UseCaseInformation)
+	for i := range infos {
+		infos[i].UseCaseSupport = slices.Clone(infos[i].UseCaseSupport)
+	}
+	data.UseCaseInformation = infos
 }
 
 // Check if a use case is already added
@@ -203,6 +216,7 @@ func (r *EntityLocal) SetUseCaseAvailability(
 		Entity: r.address.Entity,
 	}
 
+	ownUseCaseLists(data)
 	data.SetAvailability(address, actor, useCaseName, available)
 
 	verifPoint("UseCase.beforeStore")
@@ -230,6 +244,7 @@ func (r *EntityLocal) RemoveUseCaseSupport(
 		Entity: r.address.Entity,
 	}
 
+	ownUseCaseLists(data)
 	data.RemoveUseCaseSupport(address, actor, useCaseName)
 
 	verifPoint("UseCase.beforeStore")
@@ -254,6 +269,7 @@ func (r *EntityLocal) RemoveAllUseCaseSupports() {
 		Entity: r.address.Entity,
 	}
 
+	ownUseCaseLists(data)
 	data.RemoveUseCaseDataForAddress(address)
 
 	verifPoint("UseCase.beforeStore")
